@@ -24,6 +24,9 @@ _patched_defaults = {}
 
 def pattern(tidx, n, salt=0):
     """Position-dependent bytes: misplaced or repeated ranges never look right."""
+    if n > 4096:
+        import random as _r
+        return _r.Random(tidx * 1000003 + salt * 7919 + n).randbytes(n)
     return bytes(((i * 31 + (i // 251) * 17 + tidx * 101 + salt * 7 + 5) & 0xff)
                  for i in range(n))
 
